@@ -18,8 +18,8 @@ import sc_values as V
 from sc_values import attr_name, decode, show
 
 PID = "C03"
-LEAN_TARGETS = ["SpecVerif.Props.C03", "SpecVerif.Model.C05Proto"]
-AUDIT = [("SpecVerif.Props.C03", "SpecVerif.Props.C03")]
+LEAN_TARGETS = ["SpecVerif.Props.C03", "SpecVerif.Props.C03Nested", "SpecVerif.Model.C05Proto"]
+AUDIT = [("SpecVerif.Props.C03", "SpecVerif.Props.C03"), ("SpecVerif.Props.C03Nested", "SpecVerif.Props.C03Nested")]
 DRIVER = "Drivers/C03.lean"
 REQUIRED_THEOREMS = [
     "SpecVerif.Props.C03.wellTyped_step",
@@ -31,6 +31,17 @@ REQUIRED_THEOREMS = [
     "SpecVerif.Props.C03.bad_default_rejected",
     "SpecVerif.Props.C03.bad_default_error_stores_nothing",
     "SpecVerif.Props.C03.reset_error_stores_nothing",
+    "SpecVerif.Props.C03Nested.conforms_list_iff",
+    "SpecVerif.Props.C03Nested.conforms_set_iff",
+    "SpecVerif.Props.C03Nested.conforms_dict_iff",
+    "SpecVerif.Props.C03Nested.conforms_list_perm",
+    "SpecVerif.Props.C03Nested.later_element_checked",
+    "SpecVerif.Props.C03Nested.badAt_not_conforms",
+    "SpecVerif.Props.C03Nested.nested_bad_value_rejected",
+    "SpecVerif.Props.C03Nested.nested_bad_item_rejected",
+    "SpecVerif.Props.C03Nested.nested_bad_dict_entry_rejected",
+    "SpecVerif.Props.C03Nested.wellTyped_no_bad_position",
+    "SpecVerif.Props.C03Nested.reachable_no_bad_position",
 ]
 RULE = (
     "case = class family (hand-written families incl. one with list/dict/set attributes carrying item preparers, "
@@ -48,14 +59,24 @@ RULE = (
     "spec_property (overrides must conform like any value), and defaults that do NOT conform (declared value, "
     "default_factory, Attr(...), dataclasses.field, preparer output, plain- and spec-subclass overrides, wrong element "
     "of a default collection): constructed with explicit values, then del / reset_<a> / reset() must raise and store "
-    "nothing. Non-trivial = a call that changed state or raised; distinct = distinct (family, pre-state, call)."
+    "nothing. Family `nest` (and random families widened by random_nested_ty): element / key / value types BELOW the level "
+    "the collection mutators walk -- Optional[List[V]], Union[Dict[str,V],int], Optional[Set[V]], Dict[str,List[V]], List[Set[V]], "
+    "List[List[V]], Dict[str,Dict[str,V]], Optional[Dict[V,W]], Optional[List[List[V]]], element types validated / Literal / "
+    "Union: every class x attribute x route (constructor, with_, assignment, update_, transform_ constant and growing the "
+    "stored container, update, transform, element helpers with_/update_/transform_<item> constant and growing) x position of the "
+    "ONE non-conforming leaf among conforming neighbours of the same Python class (first / last / anywhere, on every level; now "
+    "and then 7..33 neighbours; now and then the equal float next to an int), conforming values of the same shape through the "
+    "same routes before and after. extra(): the same for tuple generics on the real code (not in the model). "
+    "Non-trivial = a call that changed state or raised; distinct = distinct (family, pre-state, call)."
 )
 ASSUMPTIONS = [
     "instances handed in as arguments or returned by callbacks were themselves created through the API (are well typed)",
     "preparers, item preparers and transforms are pure and total; their results are arbitrary values",
     "bools are kept out of hashed positions (True == 1) and sets aimed at list attributes have at most one element",
     "direct mutation of a contained list/dict by the user is out of scope (property text)",
-    "KeyedList/KeyedSet attributes, tuple generics, validated types: C13/C14/C15; frozen classes: C07",
+    "KeyedList/KeyedSet attributes and tuple generics are not in the Lean model (extra() checks them on the real code with the "
+    "reference checker; the containers themselves: C13/C14, check_type alone: C15); frozen classes: C07; the constructor's "
+    "**kwargs collection (init_overflow_attr): C05/C09 -- families are generated without it",
     "a dependant (`invalidated_by`) whose default passes check_type conforms deeply (EnvOK.depDefaultDeep: the model "
     "resets dependants after check_type alone)",
 ]
@@ -195,6 +216,41 @@ FAMILY_BADDEF = {
     ]
 }
 
+# validated / Literal / Union element types nested inside containers that are NOT themselves the collection the
+# mutators walk item by item: containers inside Optional / Union, containers as the items / values of a collection
+# attribute, two levels of nesting, validated dict keys.  Only the whole-container `check_type` guards these positions.
+VT2 = ["valid", 2, STR]
+LIT2 = ["lit", ["s100", "s101"]]
+FAMILY_NEST = {
+    "classes": [
+        {"id": 1, "kind": "spec", "base": None, "key": None, "attrs": [
+            A(0, V.opt(["list", VT0]), "value", "N"), A(1, ["dict", STR, ["list", VT3]]), A(2, INT, "value", "i1")]},
+        {"id": 0, "kind": "spec", "base": None, "key": None, "attrs": [
+            A(0, V.opt(["list", VT0]), "value", "N"),
+            A(1, ["union", ["dict", STR, VT3], INT], "value", "i0"),
+            A(2, V.opt(["set", VT3])),
+            A(3, ["dict", STR, ["list", VT0]]),                 # a collection attribute whose VALUES are containers
+            A(4, ["list", ["set", VT3]]),                       # ... whose items are sets
+            A(5, ["list", ["list", VT2]], "factory", "L 1 L 2 s100 s101"),
+            A(6, ["dict", STR, ["dict", STR, VT0]]),
+            A(7, V.opt(["dict", VT2, VT3])),                    # validated keys and values
+            A(8, ["union", ["list", VT3], ["dict", STR, VT3]]),
+            A(9, V.opt(["list", V.opt(VT0)])),                  # a Union as the element type
+            A(10, V.opt(["list", ["list", VT0]])),              # two levels below the Optional
+            A(11, ["spec", 1]),
+            A(12, ["list", VT0], "factory", "L 2 i1 i3"),       # (the plain collection attribute next to them)
+            A(13, V.opt(["list", LIT2])),                       # same class, different verdicts without a validator
+            A(14, ["set", VT3]),
+            A(15, ["dict", STR, ["set", VT2]]),
+            A(16, V.opt(["list", ["union", VT0, STR]])),
+            A(17, ["list", V.opt(["list", VT3])]),
+            A(18, INT, "value", "i2"),
+        ]},
+        {"id": 2, "kind": "plain", "base": 0, "over": {"18": "i5"}},
+        {"id": 3, "kind": "spec", "base": 0, "key": None, "over": {"18": "i7"}, "attrs": [A(19, V.opt(["set", VT2]), "value", "N")]},
+    ]
+}
+
 ABSTRACT = {"mseq": "list", "mset": "set", "mmap": "dict"}
 
 
@@ -258,10 +314,42 @@ def bad_default_attrs(vfam, cid):
     return out
 
 
+def random_nested_ty(rng):
+    """Optional / Union of containers, containers of containers (one or two levels), with validated / Literal / Union /
+    plain leaves"""
+    leaf = lambda: rng.choice([VT0, VT3, VT2, VT0, VT3, LIT2, INT, STR, V.opt(VT0), ["union", VT3, STR]])  # noqa: E731
+    hleaf = lambda: rng.choice([VT0, VT3, VT2, LIT2, INT, STR])  # noqa: E731   (hashable, no None / mixed classes)
+
+    def cont(depth):
+        k = rng.choice(["list", "list", "set", "dict"])
+        if k == "set":
+            return ["set", hleaf()]
+        inner = cont(depth - 1) if depth > 0 and rng.random() < 0.5 else leaf()
+        if k == "list":
+            return ["list", inner]
+        return ["dict", rng.choice([STR, STR, VT2, INT]), inner]
+
+    shape = rng.choice(["opt", "opt", "union", "coll", "coll"])
+    if shape == "opt":
+        return V.opt(cont(1))
+    if shape == "union":
+        return ["union", cont(0), rng.choice([INT, STR])]
+    k = rng.choice(["list", "dict"])
+    return ["list", cont(1)] if k == "list" else ["dict", STR, cont(1)]
+
+
+def no_ovf(fam):
+    """C05's family grammar may declare `init_overflow_attr` classes ("ovf"); the constructor's **kwargs collection is
+    C05's / C09's subject and is not in this property's model: such classes are generated without it here"""
+    for cd in fam["classes"]:
+        cd.pop("ovf", None)
+    return fam
+
+
 def random_family3(rng):
     """a family from C05's grammar, widened: some list/set/dict attributes become abstract collection generics, some
     preparer-less attributes become property-backed, and (one time in three) some defaults are made non-conforming"""
-    fam = C5.random_family(rng)
+    fam = no_ovf(C5.random_family(rng))
     for cd in fam["classes"]:
         keyattr = cd.get("key")
         for ad in cd.get("attrs", []):
@@ -279,6 +367,13 @@ def random_family3(rng):
         if cd.get("over"):
             props = {str(ad["name"]) for ad in V.effective_attrs(fam, cd["base"]) if ad.get("dk") == "prop"}
             cd["over"] = {a: d for a, d in cd["over"].items() if a not in props}
+    if rng.random() < 0.5:
+        # one or two attributes whose element / key / value types sit below the level the collection mutators walk
+        top = [cd for cd in fam["classes"] if cd["id"] == 0][0]
+        for i in range(rng.randint(1, 2)):
+            t = random_nested_ty(rng)
+            top["attrs"].append(A(50 + i, t, "value", "N") if t[0] == "union" and t[2] == ["none"] and rng.random() < 0.6
+                                else A(50 + i, t))
     if rng.random() < 0.34:
         vf = view(fam)
         top = [cd for cd in fam["classes"] if cd["id"] == 0][0]
@@ -308,8 +403,19 @@ BAD_POOL = ["N", "s100", "s102", "f3", "i1", "i-4", "L 0", "L 1 i1", "L 1 s100",
             "L 1 N", "S 1 i1", "S 1 s100", "i13", "i0", "s999", "i-1"]
 
 
+_PLAIN = {}
+
+
 def plain(tok, fam):
-    return C5.snap(decode(tok, V.build_family(fam)))
+    """the plain snapshot of the value the tokens denote (memoised per family object: read-only for the callers)"""
+    hit = _PLAIN.get((id(fam), tok))
+    if hit is not None and hit[0] is fam:
+        return hit[1]
+    v = C5.snap(decode(tok, V.build_family(fam) if "I" in tok else None))
+    if len(_PLAIN) > 20000:
+        _PLAIN.clear()
+    _PLAIN[(id(fam), tok)] = (fam, v)
+    return v
 
 
 def bad_for(rng, fam, ty, scalar_only=False, no_iter=False, abstract=False):
@@ -337,6 +443,123 @@ def bad_for(rng, fam, ty, scalar_only=False, no_iter=False, abstract=False):
     return rng.choice(cands) if cands else None
 
 
+def is_container(ty):
+    return ty[0] in ("list", "set", "dict")
+
+
+def has_container(ty):
+    """a List / Set / Dict annotation, or an Optional / Union with such a member"""
+    return is_container(ty) or (ty[0] == "union" and any(is_container(m) for m in V.union_members(ty)))
+
+
+def same_class_bad(rng, fam, ty):
+    """a NON-conforming scalar of a Python class that conforming values of `ty` have too (validated types, Literal
+    choices, unions of them: the verdict depends on the value, not on its class); any non-conforming scalar otherwise"""
+    def pool(t):
+        if t[0] == "valid":
+            return list(C5.VALID_BAD[t[1]])
+        if t[0] == "lit":
+            return [x for x in (C5.STRS if t[1][0][0] == "s" else C5.INTS) if x not in t[1]]
+        if t[0] == "union":
+            return [x for m in V.union_members(t) for x in pool(m)]
+        return []
+
+    cands = [c for c in pool(ty) if not C5.p_conforms(fam, ty, plain(c, fam))]
+    return rng.choice(cands) if cands else bad_for(rng, fam, ty, scalar_only=True)
+
+
+def good_nest(rng, fam, ty):
+    """a conforming value of `ty`; containers (at every depth) are non-empty"""
+    k = ty[0]
+    if k == "union":
+        return good_nest(rng, fam, rng.choice(V.union_members(ty)))
+    if k in ("list", "set"):
+        xs = []
+        for _ in range(rng.randint(1, 3)):
+            g = C5.nobool(good_nest(rng, fam, ty[1]))
+            if k == "list" or g not in xs:
+                xs.append(g)
+        return " ".join(["S" if k == "set" else "L", str(len(xs))] + xs)
+    if k == "dict":
+        d = {}
+        for _ in range(rng.randint(1, 2)):
+            d[C5.nobool(good_nest(rng, fam, ty[1]))] = C5.nobool(good_nest(rng, fam, ty[2]))
+        return " ".join(["D", str(len(d))] + [f"{a} {b}" for a, b in d.items()])
+    return C5.gen_value(rng, fam, ty, 0)
+
+
+PLACES = ("first", "last", "mid")
+
+
+def place_index(rng, place, n):
+    return 0 if place == "first" else n if place == "last" else rng.randint(0, n)
+
+
+def n_siblings(rng, place):
+    """1..3 conforming neighbours; for `mid` now and then many (a check that samples / truncates long containers)"""
+    return rng.choice([7, 12, 33]) if place == "mid" and rng.random() < 0.3 else rng.randint(1, 3)
+
+
+def equal_twin(tok):
+    """the float that compares (and hashes) equal to an int token: `i2` -> `f4` (= 2.0); None for other tokens"""
+    return "f" + str(2 * int(tok[1:])) if tok[:1] == "i" and tok[1:].lstrip("-").isdigit() else None
+
+
+def nest_bad(rng, fam, ty, place="mid"):
+    """
+    tokens of a value shaped like `ty` in which exactly ONE leaf (an element, a key or a value, at any depth) does not
+    conform -- preferably a value of the same Python class as its conforming neighbours; on every level of the path the
+    offending child sits first / last / anywhere among 1..3 conforming siblings.  None when there is no such value.
+    """
+    ty = cty(ty)
+    k = ty[0]
+    if k == "union":
+        ms = [m for m in V.union_members(ty) if is_container(m)]
+        v = nest_bad(rng, fam, rng.choice(ms), place) if ms else same_class_bad(rng, fam, ty)
+        if v is None or C5.p_conforms(fam, ty, plain(v, fam)):
+            return None
+        return v
+    if k in ("list", "set"):
+        be = nest_bad(rng, fam, ty[1], place)
+        if be is None:
+            return None
+        sib = []
+        for _ in range(n_siblings(rng, place)):
+            g = C5.nobool(good_nest(rng, fam, ty[1]))
+            if g != be and (k == "list" or g not in sib):
+                sib.append(g)
+        if k == "list" and sib and rng.random() < 0.15 and equal_twin(sib[0]) is not None \
+                and not C5.p_conforms(fam, ty[1], plain(equal_twin(sib[0]), fam)):
+            be = equal_twin(sib[0])      # `2.0` next to `2`: equal and of equal hash, but no int
+        pos = place_index(rng, place, len(sib))
+        xs = sib[:pos] + [be] + sib[pos:]
+        return " ".join(["S" if k == "set" else "L", str(len(xs))] + xs)
+    if k == "dict":
+        pairs = {}
+        for _ in range(n_siblings(rng, place)):
+            pairs[C5.nobool(good_nest(rng, fam, ty[1]))] = C5.nobool(good_nest(rng, fam, ty[2]))
+        bk = same_class_bad(rng, fam, ty[1])
+        bv = nest_bad(rng, fam, ty[2], place)
+        if bk is not None and bk not in pairs and (bv is None or rng.random() < 0.35):
+            bad = (bk, C5.nobool(good_nest(rng, fam, ty[2])))
+        elif bv is not None:
+            gk = None
+            for _ in range(12):
+                gk = C5.nobool(good_nest(rng, fam, ty[1]))
+                if gk not in pairs:
+                    break
+            if gk in pairs:
+                del pairs[gk]
+            bad = (gk, bv)
+        else:
+            return None
+        items = list(pairs.items())
+        pos = place_index(rng, place, len(items))
+        items = items[:pos] + [bad] + items[pos:]
+        return " ".join(["D", str(len(items))] + [f"{a} {b}" for a, b in items])
+    return same_class_bad(rng, fam, ty)
+
+
 def bad_collection(rng, fam, ty, where=None, abstract=False):
     """a pre-built list / set / dict of 1..3 entries with ONE non-conforming element (key / value) at a random position
     (`abstract`: the annotation is a container class check_type does not look inside -- the value must be an instance
@@ -347,6 +570,10 @@ def bad_collection(rng, fam, ty, where=None, abstract=False):
     pos = rng.randrange(n)
     if ty[0] in ("list", "set"):
         be = bad_for(rng, fam, ty[1], scalar_only=True)
+        if has_container(ty[1]) and rng.random() < 0.7:
+            be = nest_bad(rng, fam, ty[1], rng.choice(PLACES)) or be   # the wrong leaf one level further down
+        elif be is not None and rng.random() < 0.5:
+            be = same_class_bad(rng, fam, ty[1])
         if be is None:
             return "i1"
         xs = []
@@ -372,6 +599,10 @@ def bad_collection(rng, fam, ty, where=None, abstract=False):
     vals = [C5.gen_value(rng, fam, ty[2], 0) for _ in range(n)]
     bk = bad_for(rng, fam, ty[1], scalar_only=True)
     bv = bad_for(rng, fam, ty[2], scalar_only=True)
+    if has_container(ty[2]) and rng.random() < 0.7:
+        bv = nest_bad(rng, fam, ty[2], rng.choice(PLACES)) or bv
+    elif bv is not None and rng.random() < 0.5:
+        bv = same_class_bad(rng, fam, ty[2])
     if where == "key" and bk is not None:
         keys[pos] = bk
     elif bv is not None:
@@ -509,6 +740,8 @@ def gen_bad_op(rng, fam, cid):
             # the transform answers a container of the right class holding ONE wrong item / key / value
             v = bad_collection(rng, fam, ad["ty"], rng.choice(["key", "value"]), abstract=is_abstract(ad.get("aty", ad["ty"])))
             v = None if v == "i1" else v
+        elif container_member(ad["ty"]) is not None and C5.spec_member(ad["ty"]) is None and rng.random() < 0.6:
+            v = nest_bad(rng, fam, ad["ty"], rng.choice(PLACES))
         if v is None:
             return None
         if route == "tra":
@@ -543,6 +776,8 @@ def gen_bad_op(rng, fam, cid):
         a = ad["name"]
         if ty[0] == "list":
             be = bad_for(rng, fam, ty[1])
+            if has_container(ty[1]) and rng.random() < 0.7:
+                be = nest_bad(rng, fam, ty[1], rng.choice(PLACES)) or be
             if be is None:
                 return None
             if route == "elemtr":
@@ -557,6 +792,8 @@ def gen_bad_op(rng, fam, cid):
             return {"k": "swith", "fl": fl, "a": a, "item": be, "bad": "element"}
         bk = bad_for(rng, fam, ty[1], scalar_only=True)
         bv = bad_for(rng, fam, ty[2], scalar_only=True)
+        if has_container(ty[2]) and rng.random() < 0.7:
+            bv = nest_bad(rng, fam, ty[2], rng.choice(PLACES)) or bv
         gk = C5.nobool(C5.gen_value(rng, fam, ty[1], 0))
         gv = C5.gen_value(rng, fam, ty[2], 0)
         if route == "key" or (route == "elem" and rng.random() < 0.5):
@@ -583,6 +820,60 @@ def good_value(rng, fam, ad):
     return C5.gen_value(rng, fam, ad["ty"], 0)
 
 
+class _Unhashable(Exception):
+    pass
+
+
+def buildable(tok):
+    """False when the value tokens put a list / set / dict inside a set or at a dict key: the harness itself could not
+    build such an argument (TypeError: unhashable) -- nothing the library would ever see"""
+    ts = V.toks(tok)
+    if ts and ts[0] in ("cst", "app"):
+        ts = ts[1:]
+
+    def walk(i, hashed):
+        t = ts[i]
+        if t in ("L", "S", "D"):
+            if hashed:
+                raise _Unhashable()
+            n = int(ts[i + 1])
+            i += 2
+            for _ in range(n):
+                if t == "D":
+                    i = walk(i, True)
+                    i = walk(i, False)
+                else:
+                    i = walk(i, t == "S")
+            return i
+        if t == "I":
+            n = int(ts[i + 2])
+            i += 3
+            for _ in range(n):
+                i = walk(i + 1, False)
+            return i
+        return i + 1
+
+    try:
+        if ts:
+            walk(0, False)
+    except _Unhashable:
+        return False
+    except (IndexError, ValueError):
+        return True
+    return True
+
+
+def strings_in(x):
+    if isinstance(x, str):
+        yield x
+    elif isinstance(x, (list, tuple)):
+        for y in x:
+            yield from strings_in(y)
+    elif isinstance(x, dict):
+        for y in x.values():
+            yield from strings_in(y)
+
+
 def gen_case(rng, fam0, fname, nops, malformed):
     fam = view(fam0)          # (generation sees the concrete counterparts of the abstract collection generics)
     cid = rng.choice(C5.top_classes(fam))
@@ -590,6 +881,7 @@ def gen_case(rng, fam0, fname, nops, malformed):
     init = []
     for ad in rng.sample(eff, rng.randint(0, min(4, len(eff)))):
         init.append([ad["name"], C5.gen_arg(rng, fam, ad, sentinel_p=0.0, bad_p=0.0)])
+    init = [x for x in init if buildable(x[1])]
     # attributes whose default does not conform must be given explicitly (else the constructor raises, rightly)
     for a in bad_default_attrs(fam, cid):
         if all(x[0] != a for x in init) and rng.random() < 0.93:
@@ -604,7 +896,8 @@ def gen_case(rng, fam0, fname, nops, malformed):
             op = gen_elem_op(rng, fam, cid)
         if op is None:
             op = C5.gen_op(rng, fam, cid)
-        ops.append(op)
+        if all(buildable(t) for t in strings_in(op)):
+            ops.append(op)
     case = {"family": fam0, "fname": fname, "cls": cid, "init": init, "ops": ops, "stream": "malformed" if malformed else "valid"}
     if malformed and rng.random() < 0.25:
         # a non-conforming constructor keyword
@@ -615,6 +908,8 @@ def gen_case(rng, fam0, fname, nops, malformed):
             if ad["ty"][0] in ("list", "set", "dict") and rng.random() < 0.6:
                 v = bad_collection(rng, fam, ad["ty"], rng.choice(["key", "value"]), abstract=is_abstract(ad.get("aty", ad["ty"])))
                 v = None if v == "i1" else v
+            elif container_member(ad["ty"]) is not None and C5.spec_member(ad["ty"]) is None and rng.random() < 0.6:
+                v = nest_bad(rng, fam, ad["ty"], rng.choice(PLACES))
             if v is not None:
                 case["init"] = [x for x in init if x[0] != ad["name"]] + [[ad["name"], v]]
                 case["init_bad"] = True
@@ -823,11 +1118,142 @@ def directed_baddef_cases(rng, fam0, fname):
                    "stream": "directed", "origin": "directed-bad-default"}
 
 
+def whole_op(route, a, v, fl, tag=None):
+    """value `v` sent to attribute `a` through one whole-attribute route (not the constructor)"""
+    t = {"bad": tag} if tag else {}
+    if route in ("with", "upd"):
+        return dict({"k": route, "fl": fl, "a": a, "v": v, "kw": []}, **t)
+    if route == "set":
+        return dict({"k": "set", "a": a, "v": v}, **t)
+    if route == "tra":
+        return dict({"k": "tra", "fl": fl, "a": a, "f": "cst " + v, "kt": []}, **t)
+    if route == "UPD":
+        return dict({"k": "UPD", "fl": fl, "v": "M", "kw": [[a, v]]}, **t)
+    if route == "TRA":
+        return dict({"k": "TRA", "fl": fl, "f": None, "kt": [[a, "cst " + v]]}, **t)
+    raise ValueError(route)
+
+
+def grows_by(rng, fam, cont_ty, place):
+    """`app <x>`: the transform that adds ONE non-conforming element to the list / set it is given (None: n/a)"""
+    if cont_ty[0] not in ("list", "set"):
+        return None
+    x = nest_bad(rng, fam, cont_ty[1], place)
+    if x is None or (cont_ty[0] == "set" and x[0] in "LSD"):
+        return None
+    return "app " + x
+
+
+def directed_nested_cases(rng, fam0, fname, reps=1):
+    """
+    Element / key / value types below the level the collection mutators walk: containers inside Optional / Union,
+    containers as items / values of a collection attribute, two levels of nesting.  For every class of the family x
+    every attribute without a preparer x every route -- constructor, with_, assignment, update_, transform_ (constant
+    result, and growing the stored container by one element), update, transform, and for collection attributes the
+    element helpers with_/update_/transform_<item> (new item, replaced item, transformed item: constant and grown) --
+    x the position of the ONE non-conforming leaf among its conforming neighbours of the same class (first / last /
+    anywhere, on every level): the call must raise TypeError / ValueError and store nothing.  Conforming values of the
+    same shape go through the same routes right before and after (same class objects, same process).
+    """
+    fam = view(fam0)
+    flags = lambda: rng.choice(["-", "i", "a", "ia"])  # noqa: E731
+    for cid in C5.top_classes(fam):
+        base_init = [[a, good_value(rng, fam, C5.attr_desc(fam, cid, a))] for a in bad_default_attrs(fam, cid)]
+        groups = []
+        for ad in plain_attrs(fam, cid):
+            ty, a = ad["ty"], ad["name"]
+            if not has_container(ty) or C5.spec_member(ty) is not None:
+                continue
+            deep = any(has_container(t) for t in ty[1:]) if is_container(ty) else True
+            if not deep and not any(t[0] in ("valid", "lit", "union") for t in ty[1:]):
+                continue
+            for _ in range(reps):
+                for place in PLACES:
+                    # -- whole-attribute routes
+                    for route in WHOLE_ROUTES:
+                        v = nest_bad(rng, fam, ty, place)
+                        if v is None:
+                            continue
+                        if route == "ctor":
+                            yield {"family": fam0, "fname": fname, "cls": cid, "init": [x for x in base_init if x[0] != a] + [[a, v]],
+                                   "ops": [], "init_bad": True, "stream": "directed", "origin": "directed-nested"}
+                            continue
+                        g = []
+                        if rng.random() < 0.6:
+                            g.append(whole_op(rng.choice(WHOLE_ROUTES[1:]), a, good_nest(rng, fam, ty), rng.choice(["i", "a", "-"])))
+                        g.append(whole_op(route, a, v, flags(), f"nested-{place}"))
+                        groups.append(g)
+                    # -- transform_<a> growing the stored container by one non-conforming element
+                    conts = [ty] if is_container(ty) else [m for m in V.union_members(ty) if m[0] in ("list", "set")]
+                    for m in conts:
+                        f = grows_by(rng, fam, m, place)
+                        if f is None:
+                            continue
+                        seed_op = whole_op("set", a, good_nest(rng, fam, m), "i")
+                        groups.append([seed_op, {"k": "tra", "fl": flags(), "a": a, "f": f, "kt": [], "bad": f"nested-grow-{place}"}])
+                        groups.append([seed_op, {"k": "TRA", "fl": flags(), "f": None, "kt": [[a, f]], "bad": f"nested-grow-{place}"}])
+                    # -- element helpers of collection attributes
+                    if ty[0] == "list":
+                        it = ty[1]
+                        seed_op = {"k": "ewith", "fl": "i", "a": a, "item": C5.nobool(good_nest(rng, fam, it)), "index": "i0", "ins": 1}
+                        be = nest_bad(rng, fam, it, place)
+                        if be is not None:
+                            form = rng.choice(["append", "insert"])
+                            groups.append([seed_op, {"k": "ewith", "fl": flags(), "a": a, "item": be, "index": "M" if form == "append" else "i0",
+                                                     "ins": 0 if form == "append" else 1, "bad": f"nested-item-{place}"}])
+                            groups.append([seed_op, {"k": "eupd", "fl": flags(), "a": a, "voi": "i0", "new": be, "by": "y",
+                                                     "bad": f"nested-item-{place}"}])
+                            groups.append([seed_op, {"k": "etra", "fl": flags(), "a": a, "voi": "i0", "f": "cst " + be, "by": "y",
+                                                     "bad": f"nested-item-{place}"}])
+                        for m in ([it] if it[0] in ("list", "set") else [x for x in V.union_members(it) if x[0] in ("list", "set")]):
+                            f = grows_by(rng, fam, m, place)
+                            if f is not None:
+                                s2 = dict(seed_op, item=C5.nobool(good_nest(rng, fam, m)))
+                                groups.append([s2, {"k": "etra", "fl": flags(), "a": a, "voi": "i0", "f": f, "by": "y",
+                                                    "bad": f"nested-item-grow-{place}"}])
+                    elif ty[0] == "dict":
+                        kt_, vt = ty[1], ty[2]
+                        key = rng.choice(["s100", "s101"]) if kt_ == STR else C5.nobool(good_nest(rng, fam, kt_))
+                        seed_op = {"k": "mwith", "fl": "i", "a": a, "key": key, "v": good_nest(rng, fam, vt)}
+                        bv = nest_bad(rng, fam, vt, place)
+                        if bv is not None:
+                            groups.append([seed_op, {"k": "mwith", "fl": flags(), "a": a, "key": rng.choice([key, "s102" if kt_ == STR else key]),
+                                                     "v": bv, "bad": f"nested-item-{place}"}])
+                            groups.append([seed_op, {"k": "mupd", "fl": flags(), "a": a, "key": key, "new": bv, "bad": f"nested-item-{place}"}])
+                            groups.append([seed_op, {"k": "mtra", "fl": flags(), "a": a, "key": key, "f": "cst " + bv,
+                                                     "bad": f"nested-item-{place}"}])
+                        for m in ([vt] if vt[0] in ("list", "set") else []):
+                            f = grows_by(rng, fam, m, place)
+                            if f is not None:
+                                groups.append([seed_op, {"k": "mtra", "fl": flags(), "a": a, "key": key, "f": f,
+                                                         "bad": f"nested-item-grow-{place}"}])
+                    elif ty[0] == "set":
+                        be = nest_bad(rng, fam, ty[1], place)
+                        g0 = C5.nobool(good_nest(rng, fam, ty[1]))
+                        seed_op = {"k": "swith", "fl": "i", "a": a, "item": g0}
+                        if be is not None:
+                            groups.append([seed_op, {"k": "swith", "fl": flags(), "a": a, "item": be, "bad": f"nested-item-{place}"}])
+                            groups.append([seed_op, {"k": "supd", "fl": flags(), "a": a, "item": g0, "new": be, "bad": f"nested-item-{place}"}])
+                            groups.append([seed_op, {"k": "stra", "fl": flags(), "a": a, "item": g0, "f": "cst " + be,
+                                                     "bad": f"nested-item-{place}"}])
+        rng.shuffle(groups)
+        ops = []
+        for g in groups:
+            if len(ops) + len(g) > 14:
+                yield {"family": fam0, "fname": fname, "cls": cid, "init": base_init, "ops": ops, "stream": "directed",
+                       "origin": "directed-nested"}
+                ops = []
+            ops = ops + g
+        if ops:
+            yield {"family": fam0, "fname": fname, "cls": cid, "init": base_init, "ops": ops, "stream": "directed",
+                   "origin": "directed-nested"}
+
+
 def gen_cases(tier, rng):
     nfam = {"quick": 4, "thorough": 30, "search": 10}[tier]
     hand = [("elem", FAMILY_ELEM), ("main", C5.FAMILY_MAIN), ("prep", C5.FAMILY_PREP), ("falsy", C5.FAMILY_FALSY),
-            ("abs", FAMILY_ABS), ("desc", FAMILY_DESC), ("baddef", FAMILY_BADDEF)]
-    fams = hand + [(f"rnd{i}", random_family3(rng) if i % 2 == 0 else C5.random_family(rng)) for i in range(nfam)]
+            ("abs", FAMILY_ABS), ("desc", FAMILY_DESC), ("baddef", FAMILY_BADDEF), ("nest", FAMILY_NEST)]
+    fams = hand + [(f"rnd{i}", random_family3(rng) if i % 2 == 0 else no_ovf(C5.random_family(rng))) for i in range(nfam)]
     nh = len(hand)
     if tier != "search":
         yield from valid_order_cases(rng)
@@ -835,14 +1261,16 @@ def gen_cases(tier, rng):
             yield from directed_bad_cases(rng, fam, fname)
         for fname, fam in fams:
             yield from directed_baddef_cases(rng, fam, fname)
+        for fname, fam in fams:
+            yield from directed_nested_cases(rng, fam, fname, reps=1 if tier == "quick" or fname != "nest" else 6)
     if tier == "search":
         while True:
             fname, fam = rng.choice(fams)
             yield gen_case(rng, fam, fname, rng.randint(1, 8), rng.random() < 0.6)
         return
-    n = 1000 if tier == "quick" else 20000
+    n = 800 if tier == "quick" else 20000   # (round 4: 200 random cases traded for the directed nested stream)
     for i in range(n):
-        fname, fam = fams[i % len(fams)] if rng.random() < 0.6 else rng.choice([fams[0], fams[0], fams[4], fams[5], fams[6]])
+        fname, fam = fams[i % len(fams)] if rng.random() < 0.6 else rng.choice([fams[0], fams[0], fams[4], fams[5], fams[6], fams[7]])
         yield gen_case(rng, fam, fname, rng.randint(4, 14), malformed=(i % 2 == 1))
 
 
@@ -885,7 +1313,14 @@ def op_line(op):
     raise ValueError(op)
 
 
+def is_extra_case(case):
+    """a case reported by `extra()` (outside the line protocol)"""
+    return "family" not in case
+
+
 def model_lines(case):
+    if is_extra_case(case):
+        return ["reset"]
     fam = case["family"]
     return (["reset"] + V.class_lines(fam) + [f"new {case['cls']} {C5.kw_tokens(case['init'])}"]
             + [op_line(op) for op in case["ops"]])
@@ -938,12 +1373,17 @@ def call_real(classes, fam, recv, op):
 # ---------------------------------------------------------------------------
 
 
+_REF_PRED = {}      # id(validated type object) -> (type object, the harness' own predicate)
+
+
 def ref_conforms(value, ann):
     """does `value` conform to the annotation `ann`?  Plain recursion over typing.get_origin/get_args."""
     if ann is typing.Any:
         return True
     if id(ann) in V.VALID_REGISTRY and V.VALID_REGISTRY[id(ann)][0] is ann:
         return bool(V.VALID_PRED[V.VALID_REGISTRY[id(ann)][1]](value))   # not the library's isinstance hook
+    if id(ann) in _REF_PRED and _REF_PRED[id(ann)][0] is ann:
+        return bool(_REF_PRED[id(ann)][1](value))                        # (validated types of `extra_nested`)
     if ann is None or ann is type(None):
         return value is None
     origin = typing.get_origin(ann)
@@ -1023,6 +1463,8 @@ def wt_bits(fam, classes, recv, ret):
 
 
 def real_lines(case):
+    if is_extra_case(case):
+        return ["ok"]
     fam = case["family"]
     classes = V.build_family(fam)
     out = ["ok"] * (1 + len(fam["classes"]))
@@ -1054,6 +1496,13 @@ def real_lines(case):
 
 
 def oracle(case):
+    if is_extra_case(case):
+        probe = case.get("nested")
+        if not isinstance(probe, dict) or "route" not in probe:
+            return []       # (the other parts of `extra()` describe their probes in prose only)
+        import random as _random
+
+        return nested_probe(nested_classes(), _random.Random(0), probe)[1]
     fam = case["family"]
     classes = V.build_family(fam)
     viol = []
@@ -1118,7 +1567,7 @@ def nontrivial(case, real):
 
 
 def tags(case, real):
-    t = [f"stream:{case.get('stream')}", f"family:{case['fname'][:3]}", f"class:C{case['cls']}" if case["fname"] in ("elem", "falsy", "abs", "desc", "baddef") else "class:*"]
+    t = [f"stream:{case.get('stream')}", f"family:{case['fname'][:3]}", f"class:C{case['cls']}" if case["fname"] in ("elem", "falsy", "abs", "desc", "baddef", "nest") else "class:*"]
     base = 1 + len(case["family"]["classes"])
     t.append("ctor:" + real[base].split(" ")[0] + (":bad-keyword" if case.get("init_bad") else ""))
     if real[base].startswith("err"):
@@ -1137,6 +1586,8 @@ def tags(case, real):
 
 
 def shrink(case, at=None):
+    if is_extra_case(case):
+        return
     ops = case["ops"]
     base = 1 + len(case["family"]["classes"]) + 1
     if at is not None and at >= base:
@@ -1705,19 +2156,395 @@ def extra_desc(tier, rng):
             "info": {"descriptor_routes": evals, "descriptor_histogram": dict(sorted(hist.items()))}}
 
 
+# ---------------------------------------------------------------------------
+# tuple generics and other nestings (outside the line protocol: tuples are not in the Lean model; real code + reference
+# checker).  Validated element types below the level the collection mutators walk: Tuple[V, ...], Tuple[V, W],
+# Optional[Tuple[...]], List[Tuple[...]], Dict[str, Tuple[...]], Tuple[Tuple[...], ...], Tuple[List[V], ...],
+# Optional[List[V]], Dict[str, List[V]], List[Set[V]], Optional[Set[V]], Optional[Dict[V, W]], Union[List[V], Tuple[W, ...]].
+# Every route x every nesting x the position of the ONE non-conforming leaf among conforming neighbours of the same
+# Python class (first / last / anywhere, on every level) x conforming and non-conforming values alternating in one
+# process (the type objects are shared by all calls).
+# ---------------------------------------------------------------------------
+
+_NEST = {}
+
+# leaf name -> (conforming values, non-conforming values OF THE SAME PYTHON CLASSES); "str" is the plain class
+NEST_LEAVES = {
+    "pos": ([1, 2, 3, 7, 10**6], [0, -1, -5]),
+    "frac": ([0.5, 1.0, 0.0, 0.25, 1, 0], [1.5, -0.25, 2, -1, 1e9]),
+    "low": (["a", "ok", "b", "zz", "lower"], ["NOT_OK", "Upper", "", "A"]),
+    "even": ([0, 2, -4, 20], [1, 3, 13, -7]),
+    "str": (["x", "y", "z", "w"], [1, None, 2.5]),
+}
+
+NEST_ATTRS = {
+    "shape": ("tup", "pos"),
+    "pair": ("tupfix", ["pos", "low"]),
+    "span": ("tupfix", ["pos", "pos", "pos"]),
+    "oshape": ("opt", ("tup", "frac")),
+    "rows": ("list", ("tup", "pos")),
+    "named": ("dict", "str", ("tup", "frac")),
+    "grid": ("tup", ("tup", "pos")),
+    "tl": ("tup", ("list", "even")),
+    "weights": ("opt", ("list", "frac")),
+    "strides": ("dict", "str", ("list", "pos")),
+    "labels": ("list", ("set", "low")),
+    "olabels": ("opt", ("set", "low")),
+    "bykey": ("opt", ("dict", "low", "pos")),
+    "either": ("union", ("list", "pos"), ("tup", "low")),
+    "recs": ("opt", ("list", ("tupfix", ["low", "pos"]))),
+    "deep": ("opt", ("list", ("list", "even"))),
+    "sizes": ("list", "pos"),
+    "tags": ("set", "low"),
+}
+
+
+def nested_classes():
+    if _NEST.get("mod") is V.S("mod"):
+        return _NEST
+    from typing import Dict, List, Optional, Set, Tuple, Union
+
+    from spec_classes import spec_class
+    from spec_classes.types import bounded, validated
+
+    leaf = {
+        "pos": (bounded(int, gt=0), lambda v: type(v) is int and v > 0),
+        "frac": (bounded(float, ge=0, le=1), lambda v: type(v) in (int, float) and 0 <= v <= 1),
+        "low": (validated(lambda o: isinstance(o, str) and o.islower(), "lowercase"), lambda v: type(v) is str and v.islower()),
+        "even": (validated(lambda o: type(o) is int and o % 2 == 0, "even"), lambda v: type(v) is int and v % 2 == 0),
+    }
+    for t, pred in leaf.values():
+        _REF_PRED[id(t)] = (t, pred)
+
+    def real(ast):
+        if isinstance(ast, str):
+            return str if ast == "str" else leaf[ast][0]
+        k = ast[0]
+        if k == "tup":
+            return Tuple[real(ast[1]), ...]
+        if k == "tupfix":
+            return Tuple[tuple(real(x) for x in ast[1])]
+        if k == "list":
+            return List[real(ast[1])]
+        if k == "set":
+            return Set[real(ast[1])]
+        if k == "dict":
+            return Dict[real(ast[1]), real(ast[2])]
+        if k == "opt":
+            return Optional[real(ast[1])]
+        if k == "union":
+            return Union[real(ast[1]), real(ast[2])]
+        raise ValueError(ast)
+
+    ann = {name: real(ast) for name, ast in NEST_ATTRS.items()}
+    Grid = spec_class(bootstrap=True)(type("Grid", (), {"__annotations__": dict(ann, n=int), "n": 0, "__module__": "verif_nested"}))
+
+    class GridP(Grid):
+        n = 4
+
+    GridS = spec_class(bootstrap=True)(type("GridS", (Grid,), {"__annotations__": {"m": int}, "m": 1, "__module__": "verif_nested"}))
+    _NEST.clear()
+    _NEST.update(mod=V.S("mod"), Grid=Grid, GridP=GridP, GridS=GridS, ann=ann, leaf=leaf)
+    return _NEST
+
+
+def nest_good_py(rng, ast):
+    if isinstance(ast, str):
+        return rng.choice(NEST_LEAVES[ast][0])
+    k = ast[0]
+    if k in ("tup", "list"):
+        xs = [nest_good_py(rng, ast[1]) for _ in range(rng.randint(1, 3))]
+        return tuple(xs) if k == "tup" else xs
+    if k == "tupfix":
+        return tuple(nest_good_py(rng, x) for x in ast[1])
+    if k == "set":
+        return {nest_good_py(rng, ast[1]) for _ in range(rng.randint(1, 4))}
+    if k == "dict":
+        return {nest_good_py(rng, ast[1]): nest_good_py(rng, ast[2]) for _ in range(rng.randint(1, 3))}
+    if k == "opt":
+        return None if rng.random() < 0.15 else nest_good_py(rng, ast[1])
+    return nest_good_py(rng, rng.choice(ast[1:]))
+
+
+def nest_bad_py(rng, ast, place):
+    """a value shaped like `ast` with exactly ONE non-conforming leaf (same class as its conforming neighbours)"""
+    if isinstance(ast, str):
+        return rng.choice(NEST_LEAVES[ast][1])
+    k = ast[0]
+    if k in ("tup", "list"):
+        sib = [nest_good_py(rng, ast[1]) for _ in range(n_siblings(rng, place))]
+        pos = place_index(rng, place, len(sib))
+        be = nest_bad_py(rng, ast[1], place)
+        if type(sib[0]) is int and ast[1] in ("pos", "even") and rng.random() < 0.2:
+            be = float(sib[0])           # `2.0` next to `2`: equal and of equal hash, but no int
+        xs = sib[:pos] + [be] + sib[pos:]
+        return tuple(xs) if k == "tup" else xs
+    if k == "tupfix":
+        n = len(ast[1])
+        if rng.random() < 0.3:           # every element conforms, but there are too few / too many of them
+            good = [nest_good_py(rng, x) for x in ast[1]]
+            return tuple(good[:-1]) if rng.random() < 0.5 else tuple(good + [nest_good_py(rng, ast[1][-1])])
+        pos = 0 if place == "first" else n - 1 if place == "last" else rng.randrange(n)
+        return tuple(nest_bad_py(rng, x, place) if i == pos else nest_good_py(rng, x) for i, x in enumerate(ast[1]))
+    if k == "set":
+        return {nest_good_py(rng, ast[1]) for _ in range(n_siblings(rng, place) + 1)} | {nest_bad_py(rng, ast[1], place)}
+    if k == "dict":
+        items = list({nest_good_py(rng, ast[1]): nest_good_py(rng, ast[2]) for _ in range(n_siblings(rng, place))}.items())
+        if ast[1] != "str" and rng.random() < 0.4:
+            bad = (nest_bad_py(rng, ast[1], place), nest_good_py(rng, ast[2]))
+        else:
+            keys = [x for x in NEST_LEAVES[ast[1]][0] if x not in dict(items)] or [items.pop()[0]]
+            bad = (rng.choice(keys), nest_bad_py(rng, ast[2], place))
+        pos = place_index(rng, place, len(items))
+        return dict(items[:pos] + [bad] + items[pos:])
+    if k == "opt":
+        return nest_bad_py(rng, ast[1], place)
+    return nest_bad_py(rng, rng.choice(ast[1:]), place)
+
+
+def nest_grow_fn(rng, ast, place):
+    """a transform adding ONE non-conforming element to the tuple / list / set it is given (None: not applicable)"""
+    while ast[0] in ("opt",):
+        ast = ast[1]
+    if isinstance(ast, str) or ast[0] not in ("tup", "list", "set"):
+        return None, None
+    x = nest_bad_py(rng, ast[1], place)
+    if ast[0] == "set" and not isinstance(x, (int, float, str)):
+        return None, None
+    front = place == "first"
+
+    def grow(old):
+        if isinstance(old, tuple):
+            return (x,) + old if front else old + (x,)
+        if isinstance(old, list):
+            return [x] + old if front else old + [x]
+        if isinstance(old, (set, frozenset)):
+            return set(old) | {x}
+        return old
+
+    return grow, x
+
+
+def grid_problems(N, obj):
+    out = []
+    for name, ann in N["ann"].items():
+        v = obj.__dict__.get(name, V.S("MISSING"))
+        if v is not V.S("MISSING") and not ref_conforms(v, ann):
+            out.append(f"{type(obj).__name__}.{name} holds {v!r}")
+    return out
+
+
+def nested_probe(N, rng, probe):
+    """run one probe on the real classes; returns (error class or None, violations)"""
+    import ast as pyast
+
+    cls = N[probe["cls"]]
+    attr, route, kind = probe["attr"], probe["route"], probe["kind"]
+    value = pyast.literal_eval(probe["value"]) if probe.get("value") is not None else None
+    start = {a: pyast.literal_eval(x) for a, x in probe["start"].items()}
+    try:
+        host = cls(**start) if route != "ctor" else None
+    except Exception as e:      # conforming values all of them: not this probe's subject, reported as a disagreement
+        return "start:" + V.err_name(e), []
+    pre = repr(sorted(host.__dict__.items(), key=lambda kv: kv[0])) if host is not None else None
+    err = res = None
+    inplace = bool(probe.get("inplace"))
+    desc = (f"{probe['cls']}.{attr} via {route}{' (in place)' if inplace and route not in ('ctor', 'set') else ''}: {kind} value "
+            f"{probe['value']}" + (f" added to {probe['start'][attr]}" if "grow" in route else ""))
+    try:
+        if route == "ctor":
+            res = cls(**dict({a: v for a, v in start.items() if a != attr}, **{attr: value}))
+        elif route == "set":
+            setattr(host, attr, value)
+            res = host
+        elif route == "with":
+            res = getattr(host, f"with_{attr}")(value, _inplace=inplace)
+        elif route == "transform":
+            res = getattr(host, f"transform_{attr}")(lambda old: value, _inplace=inplace)
+        elif route == "update_attr":
+            res = getattr(host, f"update_{attr}")(value, _inplace=inplace)
+        elif route == "update":
+            res = host.update(**{attr: value}, _inplace=inplace)
+        elif route == "transform_top":
+            res = host.transform(**{attr: (lambda old: value)}, _inplace=inplace)
+        elif route in ("grow", "grow_top"):
+            x = value
+            front = bool(probe.get("front"))
+
+            def grow(old):
+                if isinstance(old, tuple):
+                    return (x,) + old if front else old + (x,)
+                if isinstance(old, list):
+                    return [x] + old if front else old + [x]
+                return set(old) | {x}
+
+            if route == "grow":
+                res = getattr(host, f"transform_{attr}")(grow, _inplace=inplace)
+            else:
+                res = host.transform(**{attr: grow}, _inplace=inplace)
+        else:
+            item_name = type(host).__spec_class__.attrs[attr].item_name
+            key = pyast.literal_eval(probe["key"]) if probe.get("key") is not None else None
+            if route == "item_with":
+                res = getattr(host, f"with_{item_name}")(*([key, value] if key is not None else [value]), _inplace=inplace)
+            elif route == "item_insert":
+                res = getattr(host, f"with_{item_name}")(value, _index=0, _insert=True, _inplace=inplace)
+            elif route == "item_update":
+                res = getattr(host, f"update_{item_name}")(0 if key is None else key, value, _inplace=inplace)
+            elif route == "item_transform":
+                res = getattr(host, f"transform_{item_name}")(0 if key is None else key, lambda old: value, _inplace=inplace)
+            elif route == "item_grow":
+                x = value
+                front = bool(probe.get("front"))
+
+                def igrow(old):
+                    if isinstance(old, tuple):
+                        return (x,) + old if front else old + (x,)
+                    if isinstance(old, list):
+                        return [x] + old if front else old + [x]
+                    return set(old) | {x}
+
+                res = getattr(host, f"transform_{item_name}")(0 if key is None else key, igrow, _inplace=inplace)
+            else:
+                raise ValueError(route)
+    except Exception as e:
+        err = V.err_name(e)
+    v = []
+    if kind == "bad":
+        if err is None:
+            v.append(f"{desc}: a value with ONE non-conforming leaf was accepted")
+        elif err not in ("TypeError", "ValueError"):
+            v.append(f"{desc}: raised {err}, not TypeError/ValueError")
+        if err is not None and host is not None and repr(sorted(host.__dict__.items(), key=lambda kv: kv[0])) != pre:
+            v.append(f"{desc}: raised {err} but the receiver changed")
+    elif err is not None and err not in ("TypeError", "ValueError"):
+        v.append(f"{desc}: raised {err}")
+    for o in [x for x in (host, res) if x is not None and hasattr(x, "__spec_class__")]:
+        for c in grid_problems(N, o):
+            v.append(f"{desc}: afterwards {c}")
+    return err, v
+
+
+NEST_ROUTES = ROUTES7 + ["grow", "grow_top"]
+
+
+def extra_nested(tier, rng):
+    N = nested_classes()
+    from spec_classes.utils.type_checking import check_type
+
+    viol, disagree, evals, nontriv, hist = [], [], 0, set(), {}
+    reps = 1 if tier == "quick" else 6
+
+    def start_values():
+        return {a: repr(nest_good_py(rng, ast)) for a, ast in NEST_ATTRS.items()}
+
+    def run(probe, ast_):
+        nonlocal evals
+        err, v = nested_probe(N, rng, probe)
+        evals += 1
+        hk = f"nested:{probe['route']}:{probe['kind']}:{err or 'ok'}"
+        hist[hk] = hist.get(hk, 0) + 1
+        nontriv.add((probe["cls"], probe["attr"], probe["route"], probe["kind"], probe.get("place"), probe["value"]))
+        if v:
+            viol.append({"case": {"nested": probe}, "violation": v})
+        if (err or "").startswith("start:") or (probe["kind"] == "good" and err is not None):
+            # on the tree this was written against every conforming value is accepted by every route
+            disagree.append({"case": {"nested": probe}, "at": 0, "real": f"conforming values refused: {err}",
+                             "model": "reference: every value conforms"})
+
+    def verdicts(value, ann, want, what):
+        # the library's own whole-value check against the reference checker, on the very values that are sent
+        nonlocal evals
+        evals += 1
+        got = bool(check_type(value, ann))
+        if got != ref_conforms(value, ann) or got != want:
+            disagree.append({"case": {"nested": {"check_type": what, "value": repr(value)}}, "at": 0,
+                             "real": f"check_type={got}", "model": f"reference={ref_conforms(value, ann)} expected={want}"})
+
+    names = ("Grid", "GridP", "GridS")
+    for rep in range(reps):
+        # (quick tier: the three classes take turns; thorough: the full product)
+        for turn, (cls_name, (attr, ast_)) in enumerate((c, a) for c in (names if tier != "quick" else names[:1])
+                                                        for a in NEST_ATTRS.items()):
+            if True:
+                if tier == "quick":
+                    cls_name = names[(turn + rep) % 3]
+                ann = N["ann"][attr]
+                for place in PLACES:
+                    if tier == "quick":
+                        cls_name = names[(names.index(cls_name) + 1) % 3]
+                    for route in NEST_ROUTES:
+                        order = ("good", "bad") if (rep + len(route) + len(attr)) % 2 == 0 else ("bad", "good")
+                        for kind in order:
+                            probe = {"cls": cls_name, "attr": attr, "route": route, "kind": kind, "place": place,
+                                     "inplace": rng.random() < 0.5, "start": start_values()}
+                            if route in ("grow", "grow_top"):
+                                g, x = nest_grow_fn(rng, ast_, place)
+                                if g is None:
+                                    continue
+                                inner = ast_
+                                while inner[0] == "opt":
+                                    inner = inner[1]
+                                if kind == "good":
+                                    x = nest_good_py(rng, inner[1])
+                                    if inner[0] == "set" and not isinstance(x, (int, float, str)):
+                                        continue
+                                probe["start"][attr] = repr(nest_good_py(rng, inner))
+                                probe["value"] = repr(x)
+                                probe["front"] = place == "first"
+                            else:
+                                value = nest_good_py(rng, ast_) if kind == "good" else nest_bad_py(rng, ast_, place)
+                                probe["value"] = repr(value)
+                                verdicts(value, ann, kind == "good", f"{attr}: {kind} {place}")
+                            if "set()" in probe["value"] or "set()" in "".join(probe["start"].values()):
+                                continue
+                            run(probe, ast_)
+                    # element helpers of the collection attributes
+                    if ast_[0] in ("list", "dict") and not isinstance(ast_[-1], str):
+                        item_ast = ast_[-1]
+                        iroutes = ["item_with", "item_update", "item_transform", "item_grow"] + (["item_insert"] if ast_[0] == "list" else [])
+                        for route in iroutes:
+                            for kind in ("good", "bad"):
+                                probe = {"cls": cls_name, "attr": attr, "route": route, "kind": kind, "place": place,
+                                         "inplace": rng.random() < 0.5, "start": start_values()}
+                                cur = nest_good_py(rng, ast_)
+                                probe["start"][attr] = repr(cur)
+                                if ast_[0] == "dict":
+                                    probe["key"] = repr(next(iter(cur)))
+                                    if route == "item_with" and rng.random() < 0.5:
+                                        probe["key"] = repr("fresh")
+                                if route == "item_grow":
+                                    g, x = nest_grow_fn(rng, item_ast, place)
+                                    if g is None:
+                                        continue
+                                    if kind == "good":
+                                        x = nest_good_py(rng, item_ast[1])
+                                    probe["value"] = repr(x)
+                                    probe["front"] = place == "first"
+                                else:
+                                    value = nest_good_py(rng, item_ast) if kind == "good" else nest_bad_py(rng, item_ast, place)
+                                    probe["value"] = repr(value)
+                                if "set()" in probe["value"] or "set()" in "".join(probe["start"].values()):
+                                    continue
+                                run(probe, ast_)
+    return {"evaluations": evals, "nontrivial": sorted(nontriv, key=repr), "violations": viol[:20], "disagreements": disagree[:20],
+            "info": {"nested_routes": evals, "nested_histogram": dict(sorted(hist.items()))}}
+
+
 def extra(tier, rng):
-    out = {"evaluations": 0, "nontrivial": [], "violations": [], "info": {}}
-    for part in (extra_keyed, extra_opaque, extra_desc):
+    out = {"evaluations": 0, "nontrivial": [], "violations": [], "disagreements": [], "info": {}}
+    for part in (extra_keyed, extra_opaque, extra_desc, extra_nested):
         r = part(tier, rng)
         out["evaluations"] += r["evaluations"]
         out["nontrivial"] += r["nontrivial"]
         out["violations"] += r["violations"]
+        out["disagreements"] += r.get("disagreements", [])
         out["info"].update(r["info"])
     return out
 
 
 MANIFEST_ENTRY = {
-    "level_text": "Lean 4 proof that in the Impl model of every mutation route of the spec-class API (generated constructor incl. keyword and dict-to-spec casting, obj.a = v, del, with_/update_/transform_/reset_<attr> with values, keywords and transforms, update/transform/reset, with_/update_/transform_/without_<item> on list / dict / set attributes by index / key / value, preparers and item preparers returning arbitrary values) the invariant WellTyped (every managed attribute that is set conforms to its annotation: element, key and value types -- also for container classes check_type does not look inside (MutableSequence/MutableSet/MutableMapping[...]), where only the per-item pass of prepare() guards the items (items_checked_by_prepare) --, Union/Optional alternatives, Literal choices, nested spec classes, recursively through nested instances) is preserved by every step, for any class table (incl. attributes without a default of their own that are backed by a property, and defaults that do not conform), any pure callbacks, any fuel (wellTyped_step), hence holds in every reachable state of every history (wellTyped_reachable), and that a call whose pipeline ends in a non-conforming value, element or key raises TypeError / ValueError and leaves the receiver as it was (bad_value_rejected &c.), as do del / reset_<a> / reset() when the class default does not conform (bad_default_rejected, reset_error_stores_nothing). The model is tied to /repo on every run: valid and malformed call streams (one non-conforming value aimed at each position of each route) run on the real classes and on the model; outcome class, returned state, receiver state and the invariant (Lean `wt` vs an independent typing-based reference checker over every live instance) are compared after every call.",
-    "level_note": "Trusted: Lean kernel; axioms propext/Classical.choice/Quot.sound only; the hand-written value-level model (shared with C05), the class-family builder, the correspondence harness. Instances supplied by the caller or by callbacks are assumed well typed (they can only be created through the API). KeyedList/KeyedSet, tuple generics and validated types are covered by C13/C14/C15, not here.",
+    "level_text": "Lean 4 proof that in the Impl model of every mutation route of the spec-class API (generated constructor incl. keyword and dict-to-spec casting, obj.a = v, del, with_/update_/transform_/reset_<attr> with values, keywords and transforms, update/transform/reset, with_/update_/transform_/without_<item> on list / dict / set attributes by index / key / value, preparers and item preparers returning arbitrary values) the invariant WellTyped (every managed attribute that is set conforms to its annotation: element, key and value types -- also for container classes check_type does not look inside (MutableSequence/MutableSet/MutableMapping[...]), where only the per-item pass of prepare() guards the items (items_checked_by_prepare) --, Union/Optional alternatives, Literal choices, nested spec classes, recursively through nested instances) is preserved by every step, for any class table (incl. attributes without a default of their own that are backed by a property, and defaults that do not conform), any pure callbacks, any fuel (wellTyped_step), hence holds in every reachable state of every history (wellTyped_reachable), and that a call whose pipeline ends in a non-conforming value, element or key raises TypeError / ValueError and leaves the receiver as it was (bad_value_rejected &c.), as do del / reset_<a> / reset() when the class default does not conform (bad_default_rejected, reset_error_stores_nothing). The model is tied to /repo on every run: valid and malformed call streams (one non-conforming value aimed at each position of each route) run on the real classes and on the model; outcome class, returned state, receiver state and the invariant (Lean `wt` vs an independent typing-based reference checker over every live instance) are compared after every call. Element / key / value types at any depth (containers inside Optional / Union, containers as items / values of collection attributes): the verdict of check_type on a container is the conjunction of the verdicts on its elements one by one (conforms_list_iff &c.), independent of their order (conforms_list_perm) and of what precedes an element (later_element_checked); ONE non-conforming leaf at any position of any nesting makes the value non-conforming (badAt_not_conforms), every route rejects it with nothing stored (nested_bad_value_rejected, nested_bad_item_rejected &c.) and no reachable state holds one (reachable_no_bad_position); tied to /repo by the `nest` family (every route x every nesting x position of the offending leaf among conforming neighbours of the same class).",
+    "level_note": "Trusted: Lean kernel; axioms propext/Classical.choice/Quot.sound only; the hand-written value-level model (shared with C05), the class-family builder, the correspondence harness. Instances supplied by the caller or by callbacks are assumed well typed (they can only be created through the API). KeyedList/KeyedSet attributes and tuple generics (Tuple[V, ...], Tuple[V, W], nested) are not in the Lean model: extra() sends them through every route on the real code and checks with the reference checker.",
     "technique": "Lean 4 inductive-invariant proof over all routes and histories of a hand-written model; differential correspondence against the real API; typing-based reference checker as independent oracle",
 }
